@@ -27,10 +27,11 @@ CONSTANTS MaxOps,      \* bound on the number of actions in a behaviour
           Lens,        \* set of argument lengths
           Spares,      \* set of spare capacities of argument slices
           Extras,      \* growth slack explored on reallocation (subset of 0..1)
-          Variant,     \* "code" | "prepend-nocopy" | "replace-nocopy" | "append-arg-first" | "replace-inplace" | "clear-keep"
+          Variant,     \* "code" | "prepend-nocopy" | "replace-nocopy" | "append-arg-first" | "replace-inplace" | "clear-keep" | "prepend-inplace"
           EmitHist,    \* TRUE in the generation configuration
           EmitFilter   \* "all" | "snap": only behaviours in which a result of All() is held across a Replace
                        \* | "clear": ... across a Clear that is followed by an Append
+                       \* | "prepend": ... across a Prepend, after two Appends (which leave spare capacity)
 
 VARIABLES heap, d, args, shadow, model, fresh, hist, snap
 
@@ -108,7 +109,14 @@ DoPrepend(i, extra) ==
                  THEN [h |-> heap, s |-> args[i]]                  \* wrong: append(decs, *d...)
                  ELSE GoAppend(heap, Nil, ArgSeq(i), 0)            \* append([]string{}, decs...)
          r == GoAppend(base.h, base.s, Content(d), extra)
-     IN heap' = r.h /\ d' = r.s
+         \* wrong: grow once, shift the old elements up, copy the new ones in front (in place when the
+         \* capacity suffices)
+         n == Len(ArgSeq(i))
+         inplace == Variant = "prepend-inplace" /\ d.arr # 0 /\ n > 0 /\ d.len + n <= d.cap
+         shifted == [k \in 1..Len(heap[d.arr]) |->
+                       IF k <= n THEN ArgSeq(i)[k] ELSE IF k <= d.len + n THEN heap[d.arr][k - n] ELSE heap[d.arr][k]]
+     IN IF inplace THEN heap' = [heap EXCEPT ![d.arr] = shifted] /\ d' = [d EXCEPT !.len = d.len + n]
+        ELSE heap' = r.h /\ d' = r.s
   /\ model' = ArgSeq(i) \o model
   /\ UNCHANGED <<args, shadow, fresh>>
   /\ Log(Rec("Prepend", i, extra))
@@ -194,5 +202,7 @@ TypeOK == /\ d.len <= d.cap
 HeldAcrossReplace == \E j \in DOMAIN hist : hist[j].op = "All" /\ \E k \in (j + 1)..Len(hist) : hist[k].op = "Replace" /\ hist[k].arg # 0
 HeldAcrossClear == \E j \in DOMAIN hist : hist[j].op = "All" /\ \E k \in (j + 1)..Len(hist) : hist[k].op = "Clear"
                         /\ \E m \in (k + 1)..Len(hist) : hist[m].op = "Append" /\ hist[m].arg # 0
-Emit == (EmitHist /\ Len(hist) = MaxOps /\ (EmitFilter = "all" \/ (EmitFilter = "snap" /\ HeldAcrossReplace) \/ (EmitFilter = "clear" /\ HeldAcrossClear))) => PrintT("BEH " \o ToJson(hist))
+HeldAcrossPrepend == \E j \in DOMAIN hist : hist[j].op = "All" /\ \E k \in (j + 1)..Len(hist) : hist[k].op = "Prepend" /\ hist[k].arg # 0
+                          /\ Cardinality({m \in 1..(j - 1) : hist[m].op = "Append" /\ hist[m].arg # 0}) >= 2
+Emit == (EmitHist /\ Len(hist) = MaxOps /\ (EmitFilter = "all" \/ (EmitFilter = "snap" /\ HeldAcrossReplace) \/ (EmitFilter = "clear" /\ HeldAcrossClear) \/ (EmitFilter = "prepend" /\ HeldAcrossPrepend))) => PrintT("BEH " \o ToJson(hist))
 =============================================================================
